@@ -22,8 +22,11 @@ class DjangoModelWithoutDunderStrTransformer(
         cst.BaseStatement, cst.FlattenSentinel[cst.BaseStatement], cst.RemovalSentinel
     ]:
 
-        # TODO: add filter by include or exclude that works for nodes
-        # that that have different start/end numbers.
+        # the class is identified by its name: that is where a finding points
+        # and the line an include or exclude refers to
+        if not self.node_is_selected(original_node.name):
+            return updated_node
+
         if not any(
             self.find_base_name(base.value) == "django.db.models.Model"
             for base in original_node.bases
